@@ -141,7 +141,12 @@ func ParseMxFunctionParameters(parameters string) ([]MurexFuncParam, error) {
 
 		case '\n':
 			switch context {
-			case fpcNameStart, fpcDescEnd, fpcDefaultEnd:
+			case fpcNameStart, fpcDescEnd, fpcDefaultEnd, fpcDescStart:
+				y++
+				x = 1
+			case fpcTypeRead:
+				// the line break ends the data type, like a space does
+				context++
 				y++
 				x = 1
 			default:
@@ -221,7 +226,7 @@ func ParseMxFunctionParameters(parameters string) ([]MurexFuncParam, error) {
 				mfp = append(mfp, MurexFuncParam{})
 				counter++
 				context = fpcNameStart
-			case fpcTypeRead, fpcDescEnd, fpcDefaultEnd:
+			case fpcTypeRead, fpcDescStart, fpcDescEnd, fpcDefaultEnd:
 				mfp = append(mfp, MurexFuncParam{})
 				counter++
 				context = fpcNameStart
